@@ -84,10 +84,9 @@ class Unit:
                 continue
             if s.startswith('//@ INCLUDE'):
                 rel = s.split()[2]
-                inc = open(os.path.join(VERIF, rel), encoding='utf-8').read()
+                inc = open(os.path.join(VERIF, rel), encoding='utf-8').read().split('\n')
                 self.includes = getattr(self, 'includes', []) + [rel]
-                self.emit(inc, 'include:' + rel)
-                i += 1
+                lines[i:i + 1] = inc
                 continue
             if s.startswith('//@ PROPS'):
                 pending_props = s.split()[2:]
@@ -98,8 +97,10 @@ class Unit:
                 src = self.src(kv)
                 kind = 'struct' if 'struct' in kv else 'enum'
                 txt = type_text(src, kind, kv[kind], self.manifest)
-                if 'prefix' in kv:
-                    txt = kv['prefix'] + ' ' + txt
+                if 'clone' in kv:
+                    # so that `.clone()` inside outlined (external_body) expressions type-checks;
+                    # the impl is outside verus!{} (external, never verified, never executed)
+                    self.clone_types = getattr(self, 'clone_types', []) + [kv[kind]]
                 self.emit(txt, 'repo:%s:%s %s' % (src.display, kind, kv[kind]))
                 i += 1
                 continue
@@ -130,10 +131,16 @@ class Unit:
                 else:
                     raise ExtractError('%s: EXTRACT without END' % self.path)
                 i += 1
-                if is_block:
-                    ft = BlockText(src, kv.get('in'), kv['fn'], kv['anchor'], int(kv.get('occurrence', 1)))
-                else:
-                    ft = FnText(src, kv.get('in'), kv['fn'])
+                try:
+                    if is_block:
+                        ft = BlockText(src, kv.get('in'), kv['fn'], kv['anchor'], int(kv.get('occurrence', 1)))
+                    else:
+                        ft = FnText(src, kv.get('in'), kv['fn'])
+                except ExtractError as e:
+                    if kv.get('optional'):
+                        self.skipped = getattr(self, 'skipped', []) + ['%s (optional, not present: %s)' % (kv.get('as', kv['fn']), e)]
+                        continue
+                    raise
                 ft.drop_prints()
                 outlined = []
                 signature = None
@@ -153,6 +160,10 @@ class Unit:
                     elif op == 'LOOP':
                         m = re.match(r'(\d+)(?:\s+ITER=(\w+))?', rest)
                         ft.add_loop_invariant(int(m.group(1)), text, m.group(2))
+                    elif op == 'LOOP-END':
+                        ft.insert_at_loop_end(int(rest.strip()), text)
+                    elif op == 'AFTER-LOOP':
+                        ft.insert_after_loop(int(rest.strip()), text)
                     elif op in ('AFTER', 'BEFORE'):
                         m = re.match(r'`(.*)`(?:\s+#(\d+))?\s*$', rest)
                         if not m:
@@ -161,6 +172,12 @@ class Unit:
                         (ft.insert_after if op == 'AFTER' else ft.insert_before)(m.group(1), text, occ)
                     elif op == 'CLOSURE':
                         ft.annotate_closure(int(rest.strip()), text.strip())
+                    elif op == 'WRAP':
+                        m = re.match(r'`(.*)`(?:\s+#(\d+))?\s+WITH\s+(\w+)\s*$', rest)
+                        if not m:
+                            raise ExtractError('bad WRAP directive: %s' % head)
+                        ft.wrap(m.group(1), m.group(3), int(m.group(2) or 1))
+                        self.assumptions.append('W1: `%s` in %s is evaluated through the trusted prelude function %s' % (m.group(1), kv['fn'], m.group(3)))
                     elif op == 'OUTLINE':
                         m = re.match(r'`(.*)`(?:\s+#(\d+))?\s+AS\s+(.*)$', rest)
                         if not m:
@@ -208,10 +225,22 @@ class Unit:
             arms, notes = self.format_arms()
             self.out_lines[fmt_slot] = arms
             self.manifest.append({'op': 'M1 format! arms', 'templates': notes})
-        # close open lemma ranges
+        # close open lemma ranges: up to the brace that closes the lemma's body
         for ob in self.obligations:
             if ob['lines'][1] is None:
-                ob['lines'][1] = ob['lines'][0]
+                start = ob['lines'][0]
+                depth, seen, end = 0, False, start
+                for k in range(start - 1, len(self.out_lines)):
+                    ln = re.sub(r'//.*', '', self.out_lines[k])
+                    depth += ln.count('{') - ln.count('}')
+                    if '{' in ln:
+                        seen = True
+                    if seen and depth <= 0:
+                        end = k + 1
+                        break
+                ob['lines'][1] = end
+        for t in getattr(self, 'clone_types', []):
+            self.emit('impl Clone for %s { fn clone(&self) -> Self { unreachable!() } }' % t, 'generated:external Clone impl')
         text = '\n'.join(self.out_lines)
         return text
 
